@@ -82,7 +82,18 @@ func runC18(c *Ctx) {
 		r.Ok("C18.fields", "cloudevents.SpecVersion", "", "constant \"1.0\"")
 	}
 
-	paths := c.enum("C18.process", proc, PathOpts{})
+	// small package-level helpers Process hands the payload to (the id look-up extracted, say) are followed; the
+	// observed calls — validate, sign, newId — stay calls
+	paths := c.enum("C18.process", proc, PathOpts{Inline: func(caller *ssa.Function, call *ssa.Call, callee *ssa.Function) bool {
+		if caller != proc || PkgPathOf(callee) != PkgCloud || len(callee.Blocks) > 16 {
+			return false
+		}
+		switch callee.Name() {
+		case "validate", "sign", "newId":
+			return false
+		}
+		return true
+	}})
 	type arm struct {
 		ctype, key string
 		indent     bool
@@ -419,7 +430,7 @@ func runC18(c *Ctx) {
 					return at.Op == "eq" && at.L.Is("Field", "Signer") && at.L.Args[0].IsParam("0:f") && at.R.Is("Const", "nil")
 				})
 				listed, f2 := hasAtom(pa, func(at Atom) bool {
-					return at.Op == "true" && at.L.Op == "Call" && strings.HasSuffix(at.L.Name, "strutil.StrListContains") &&
+					return at.Op == "true" && at.L.Op == "Call" && isListContains(at.L.Name) &&
 						at.L.Args[0].String() == "Field[SignEventTypes](Param(0:f))" && at.L.Args[1].String() == "Field[Type](Param(2:e))"
 				})
 				okSkip := (f1 && nilSigner) || (f2 && !listed)
@@ -433,7 +444,7 @@ func runC18(c *Ctx) {
 		// condition: signer != nil and the type is listed
 		nnPol, nnFound := hasAtom(pa, func(at Atom) bool { return at.Op == "eq" && at.L.String() == fnT.String() && at.R.Is("Const", "nil") })
 		listPol, listFound := hasAtom(pa, func(at Atom) bool {
-			return at.Op == "true" && at.L.Op == "Call" && strings.HasSuffix(at.L.Name, "strutil.StrListContains") &&
+			return at.Op == "true" && at.L.Op == "Call" && isListContains(at.L.Name) &&
 				at.L.Args[0].String() == "Field[SignEventTypes](Param(0:f))" && at.L.Args[1].String() == "Field[Type](Param(2:e))"
 		})
 		if !fnT.Is("Field", "Signer") || !(nnFound && !nnPol) || !(listFound && listPol) {
@@ -503,4 +514,10 @@ func runC18(c *Ctx) {
 	c.ruleValidate()
 	// a rejected Rotate leaves the signer in force
 	c.ruleRejectLeavesState("C18.sig", c.Fn("C18.sig", PkgCloud, "FormatterFilter", "Rotate"), "cloudevents.FormatterFilter", []string{"Signer"})
+}
+
+// isListContains: the membership tests the signing condition may use for (SignEventTypes, type): strutil's
+// StrListContains or the standard library's generic slices.Contains.
+func isListContains(name string) bool {
+	return strings.HasSuffix(name, "strutil.StrListContains") || strings.HasPrefix(name, "slices.Contains[")
 }
